@@ -21,7 +21,7 @@ RULE = ("reply: 1-3 sequential exchanges on one real radiusConn over loopback UD
         "coa: one real CoA listener per case (1-3 client nets incl. overlapping ones, replay window 300/10/0, optional "
         "NAS-Identifier and custom VSA mappings) receiving 1-4 CoA/Disconnect/other packets from configured and "
         "unconfigured loopback sources; request authenticator right / wrong key / zero / random, Message-Authenticator "
-        "absent / RFC 5176 / as-transmitted / garbage / one bit flipped, request authenticator also with one bit flipped in any octet, Event-Timestamp absent / inside / at +-window / one past / far / zero, "
+        "absent / RFC 5176 / as-transmitted / garbage / one bit flipped / irregular (wrong length, repeated: either answer admissible), request authenticator also with one bit flipped in any octet, Event-Timestamp absent / inside / at +-window / one past / far / zero, "
         "targets of all four kinds, mutable, stripped, non-whitelisted and vendor attributes, Proxy-State, length field "
         "off by some octets, trailing octets (incl. a fake attribute 80), literal junk; in 45 % of the cases a byte-identical copy "
         "of an earlier datagram of the case is re-sent later (replay, possibly from another address). auth: Provider.Authenticate "
@@ -278,6 +278,9 @@ def gen_coa_packet(rng, clients, win, nasid, force_ts=False):
         attrs.insert(rng.randrange(len(attrs) + 1), (80, "MA"))
         if rng.random() < 0.1:
             attrs.append((80, "MA"))
+    if rng.random() < 0.06:
+        # irregular Message-Authenticator (length other than 18): HEAD treats it as absent; refusing it is admissible too
+        attrs.insert(rng.randrange(len(attrs) + 1), (80, bytes(rng.choice([0, 3, 15, 17]))))
     rng.shuffle(attrs) if rng.random() < 0.3 else None
     sign = rng.choice(["S:" + hx(key)] * 26 + ["X%d:%s" % (rng.randrange(16), hx(key)), "X%d:%s" % (rng.choice([0, 7, 8, 15]), hx(key)),"S:" + hx(key + b"x"), "Z", "L:" + hx(bytes(rng.randrange(256) for _ in range(16))),
                                               "S:" + hx(K2 if key != K2 else K1)])
